@@ -52,11 +52,11 @@ func main() {
 
 	// 2. generate and replay
 	total := chain.RunStats{Tags: map[string]int{}}
-	for _, name := range []string{"v1only", "mixed", "v2only"} {
+	for _, name := range []string{"v1only", "mixed", "v2only", "foundation"} {
 		cfg := chain.BaseConfig(chain.Shapes()[name])
 		cfg.Defects = []string{"unbalanced", "zero", "formation"}
 		cfg.MaxReverts = 1
-		st := chain.Run(c, cfg, chain.RunOpts{Num: c.Pick(160, 4000), Depth: 56, Timeout: 20 * time.Minute})
+		st := chain.Run(c, cfg, chain.RunOpts{Num: c.Pick(140, 3500), Depth: 56, Timeout: 20 * time.Minute})
 		total.Behaviours += st.Behaviours
 		total.Steps += st.Steps
 		total.Accepted += st.Accepted
@@ -74,7 +74,7 @@ func main() {
 	c.Cov("transactions_by_template", total.Tags)
 	c.Traces(int64(total.Behaviours))
 	c.Count(int64(total.Steps), int64(total.Behaviours))
-	for _, need := range []string{"v1:pay", "v2:pay", "v1:sf", "v2:sf", "v1:form1", "v1:prove1", "v2:form2", "v2:renew", "v2:proof", "v2:expire"} {
+	for _, need := range []string{"v1:pay", "v2:pay", "v1:sf", "v2:sf", "v1:form1", "v2:form2", "v2:attest", "v1:fnd", "v2:fnd"} {
 		if total.Tags[need] == 0 {
 			c.Infra("vacuity: template %s never occurred", need)
 		}
